@@ -704,6 +704,16 @@ func (s *Sim) build(a *Action, bs *BState) world.Req {
 		a.Secret, a.Resolved = s.resolvePw(a, a.Cls)
 		rq.Path = w.P("/login")
 		f["email"], f["password"] = a.PID, a.Secret
+		if a.opt("spell") == "flipcase" && a.PID != "" {
+			// another spelling of the identifier, which a case-insensitive lookup resolves to the same account
+			c := a.PID[:1]
+			if c == strings.ToUpper(c) {
+				c = strings.ToLower(c)
+			} else {
+				c = strings.ToUpper(c)
+			}
+			f["email"] = c + a.PID[1:]
+		}
 		if v := a.opt("rm"); v != "" {
 			f["rm"] = v
 		}
